@@ -75,10 +75,11 @@ impl Num {
     pub(crate) fn as_pos_usize(&self) -> Option<PosUsize> {
         match self {
             Self::Int(i) => Some(PosUsize(*i >= 0, i.unsigned_abs())),
-            Self::BigInt(i) => i
-                .magnitude()
-                .to_usize()
-                .map(|u| PosUsize(i.sign() != Sign::Minus, u)),
+            // saturate, because an integer beyond `usize` lies outside of any container
+            Self::BigInt(i) => Some(PosUsize(
+                i.sign() != Sign::Minus,
+                i.magnitude().to_usize().unwrap_or(usize::MAX),
+            )),
             _ => None,
         }
     }
@@ -95,7 +96,7 @@ impl Num {
 
     pub(crate) fn length(&self) -> Self {
         match self {
-            Self::Int(i) => Self::Int(i.abs()),
+            Self::Int(i) => int_or_big(i.checked_abs(), [*i], |[i]| -i),
             Self::BigInt(i) => match i.sign() {
                 Sign::Plus | Sign::NoSign => Self::BigInt(i.clone()),
                 Sign::Minus => Self::BigInt(BigInt::from(i.magnitude().clone()).into()),
